@@ -278,6 +278,7 @@ def r2_reductions(ck, prog, run):
         else:
             ck.unk("R2", ta.where, "Phase._take_along_axis(flat index, axis=None)", "selection is an element lookup the analyser can normalise", str(r)[:160])
     take_along_rule(ck, prog, ta)
+    kind_flag_rule(ck, prog)
     # ... and the producers of those flat indices must count in the same logical C order: flattening the keys with order="K"/"A"/"F"
     # numbers the elements by memory layout, which differs for transposed / Fortran-ordered / sliced phase arrays
     n_flat = n_prod = 0
@@ -299,6 +300,75 @@ def r2_reductions(ck, prog, run):
     if n_flat == 0:
         ck.same("R2", prog.func("Phase.argsort").where, "Phase index producers", "no flattening call with an order argument in the index producers", True)
     run.floor("R2", "index producers examined for flattening order", n_prod, 6)
+
+
+STRIPPERS = {"asarray", "asanyarray", "empty", "zeros", "ones", "array", "empty_like", "zeros_like", "frombuffer"}
+
+
+def kind_flag_rule(ck, prog):
+    """Whether a Phase is real or imaginary is an attribute (`imaginary`) that __array_finalize__ copies from the array a new
+    Phase is made from -- and sets to False when that array is a plain ndarray.  Every `X.view(<the Phase class>)` in the class
+    therefore either has a Phase as X, or is followed by an explicit `<result>.imaginary = ...` in the same function; a Phase
+    re-created from stripped data (self.view(np.ndarray), np.asarray(self), a fresh np.empty) without it turns imaginary
+    phases into real ones (sort / min / max / ptp along an axis would lose the j)."""
+    ci = prog.cls("Phase")
+    n_sites, bad = 0, []
+
+    def is_phase_type(e):
+        t = norm(e)
+        return t in ("cls", "type(self)", "self.__class__", "Phase", "type(phase1)", "type(phase2)")
+
+    for fi in prog.all_functions:
+        if fi.cls is not ci or not isinstance(fi.node, (ast.FunctionDef,)):
+            continue
+        assigns = {}
+        flag_sets = set()
+        for n in ast.walk(fi.node):
+            if isinstance(n, ast.Assign):
+                for t in n.targets:
+                    if isinstance(t, ast.Name):
+                        assigns.setdefault(t.id, []).append(n.value)
+                    if isinstance(t, ast.Attribute) and t.attr == "imaginary" and isinstance(t.value, ast.Name):
+                        flag_sets.add(t.value.id)
+            elif isinstance(n, ast.NamedExpr) and isinstance(n.target, ast.Name):
+                assigns.setdefault(n.target.id, []).append(n.value)
+
+        def stripped(e, seen=()):
+            """The expression is (built from) a plain ndarray view / a fresh plain array of the phase data."""
+            for c in ast.walk(e):
+                if isinstance(c, ast.Call) and isinstance(c.func, ast.Attribute):
+                    if c.func.attr == "view" and c.args and norm(c.args[0]) in ("np.ndarray", "numpy.ndarray"):
+                        return True
+                    if c.func.attr in STRIPPERS and norm(c.func.value) in ("np", "numpy"):
+                        return True
+                if isinstance(c, ast.Name) and c.id in assigns and c.id not in seen and c.id != "self":
+                    if any(stripped(v, seen + (c.id,)) for v in assigns[c.id]):
+                        return True
+            return False
+        parents = {}
+        for n in ast.walk(fi.node):
+            for c in ast.iter_child_nodes(n):
+                parents[id(c)] = n
+        for n in ast.walk(fi.node):
+            if not (isinstance(n, ast.Call) and isinstance(n.func, ast.Attribute) and n.func.attr == "view" and n.args and any(is_phase_type(a) for a in n.args)):
+                continue
+            n_sites += 1
+            if not stripped(n.func.value):
+                continue
+            # the name the new Phase is bound to, and an explicit flag assignment on it
+            par = parents.get(id(n))
+            bound = [t.id for t in par.targets if isinstance(t, ast.Name)] if isinstance(par, ast.Assign) else []
+            if not any(b in flag_sets for b in bound):
+                bad.append((fi, n))
+    for fi, n in bad:
+        ck.same("R2", f"{fi.module.replace('.', '/')}.py:{n.lineno} {fi.qualname}", norm(n)[:120],
+                "a Phase re-created from plain array data is given its real/imaginary kind explicitly", False,
+                found="the receiver is stripped data (a plain ndarray view or a fresh array): __array_finalize__ sets imaginary=False, and nothing assigns it afterwards",
+                nontrivial=True)
+    if not bad:
+        ck.same("R2", ci.node.name and prog.func("Phase.__array_finalize__").where, f"{n_sites} `.view(<Phase class>)` site(s) in the class",
+                "a Phase re-created from plain array data is given its real/imaginary kind explicitly", True, nontrivial=True)
+    ck.run.floor("R2", "view-as-Phase sites examined", n_sites, 3)
 
 
 def take_along_rule(ck, prog, ta):
@@ -605,14 +675,14 @@ def r5_to_string(ck, prog, run):
     for i_, f_ in vals:
         if sp.Rational(f_).q > 2**20:
             continue
-        for spec in (".1f", ".3f", ".6f"):
+        for spec, imag in [(sp_, False) for sp_ in (".1f", ".3f", ".6f")] + ([(".3f", True), (".1f", True)] if (i_, f_) in ((3, "1/8"), (0, "-3/8"), (-7, "0")) else []):
             nf += 1
-            p = make_phase(prog, "p")
+            p = make_phase(prog, "p", imag)
             p.attrs["_pint"] = Num(sp.Integer(i_), isfloat=True)
             p.attrs["_pfrac"] = Num(sp.Rational(f_), isfloat=True)
             ev = phase_evaluator(prog, PhaseLog())
             ev.float_fold = True
-            label = f"format(Phase({i_}, {f_}), '{spec}')"
+            label = f"format(Phase({i_}, {f_}{'j' if imag else ''}), '{spec}')"
             try:
                 r = ev.call(ffm, [StrV(spec)], {}, self_val=p)
             except Raised as e:
@@ -626,12 +696,18 @@ def r5_to_string(ck, prog, run):
                 continue
             exact = Fraction(i_) + Fraction(f_)
             pr = int(spec[1:-1])
+            body = r.s
+            if imag:
+                if not body.endswith("j"):
+                    badf.append((label, f"{r.s!r}: imaginary phase rendered without j"))
+                    continue
+                body = body[:-1]
             try:
-                got = Fraction(decimal.Decimal(r.s))
+                got = Fraction(decimal.Decimal(body))
             except Exception:
                 badf.append((label, f"{r.s!r} is not a decimal number"))
                 continue
-            digits = len(r.s.split(".")[1]) if "." in r.s else 0
+            digits = len(body.split(".")[1]) if "." in body else 0
             ok = digits == pr and abs(got - exact) <= Fraction(1, 2 * 10**pr)
             if ok and exact < 0 and not r.s.startswith("-") and (got != 0 or abs(exact) >= Fraction(1, 2 * 10**pr)):
                 ok = False
